@@ -52,6 +52,7 @@ structure Ob where
   paused : Bool
   stalled : Bool
   stopTask : Option String
+  rl : Option Int
   trans : List Tr
   dbShutdown : Option (Option String × Option String)
   deriving Inhabited
@@ -72,6 +73,7 @@ def parseOb (j : Json) : Ob :=
     paused := (jBoolField? j "paused").getD false,
     stalled := (jBoolField? j "stalled").getD false,
     stopTask := jStrField? j "stop_task",
+    rl := jIntField? j "rl",
     trans := ((jArrField? j "trans").getD []).filterMap fun l =>
       match jArr? l with
       -- [p, n, old, new, submit_num, msg_top, transient, in_pool]: only changes of the pooled proxy count
@@ -177,7 +179,11 @@ def judgeTrace (cfgStop : Option Int) (fcp : Int) (ops : Array Op) (obs : Array 
           match cur.sp with
           | some sp =>
             if t.p ≤ sp && t.st == "waiting" then
-              return some s!"obs {i}: automatic shutdown while {tid t.p t.n} (at or before the stop point {sp}) is still waiting"
+              -- recorded finding: the task is held back by a runahead limit that stayed at an earlier, lower stop
+              -- point (`cylc stop <point>` raised the stop point without recomputing the limit)
+              let stale := t.rh && (match cur.rl with | some rl => decide (rl < sp) && decide (t.p > rl) | none => false)
+              let key := if stale then "stale-runahead-limit: " else ""
+              return some s!"{key}obs {i}: automatic shutdown while {tid t.p t.n} (at or before the stop point {sp}) is still waiting"
           | none => pure ()
         m := { m with reached := true, dbsp := none }
     else if stopping then
